@@ -8,7 +8,7 @@ CONSTANTS
   SlotNode <- Slot3
   Menu <- MenuGen
   MaxReq <- GMaxReq
-  AnswerKinds <- AKvals
+  AnswerKinds <- AKvalsE
   MaxMsg = 8
   TimeoutOn = FALSE
   MaxBkClose = 0
